@@ -23,6 +23,7 @@ Ltac Zify.zify_post_hook ::= Z.div_mod_to_equations.
 
 (* ------------------------------------------------------------------ 1. the source is what was modelled *)
 Lemma conn_fields_ok : rcon_conn_fields = expected_conn_fields. Proof. reflexivity. Qed.
+Lemma listener_fields_ok : rcon_listener_fields = expected_listener_fields. Proof. reflexivity. Qed.
 Lemma ReadPacket_skel_ok : rcon_ReadPacket = expected_ReadPacket. Proof. reflexivity. Qed.
 Lemma WritePacket_skel_ok : rcon_WritePacket = expected_WritePacket. Proof. reflexivity. Qed.
 Lemma Cmd_skel_ok : rcon_Cmd = expected_Cmd. Proof. reflexivity. Qed.
@@ -157,6 +158,7 @@ Fixpoint eval (s : st) (e : rexpr) : option value :=
             match l with [] => true | a :: t => match eval s a with Some _ => all t | None => false end end) args
       then Some (VE (Some (err_class msg))) else None
   | XRand31 => Some (VZ rnd)
+  | XNew _ _ => None                   (* records are built by ListenRCON / Accept only: exec_ctor below *)
   end.
 
 Fixpoint evals (s : st) (es : list rexpr) : option (list value) :=
@@ -297,6 +299,7 @@ Fixpoint exec (fuel : nat) (rs : list (string * string)) (ps : list rstmt) (s : 
           | true, Some e' => exec k rs t (upd s e')
           | _, _ => Crash 113
           end
+      | SListen _ _ | SAcceptConn _ _ => Crash 115   (* ListenRCON / Accept: exec_ctor below *)
       | SOther _ => Crash 114
       end
     end
@@ -363,7 +366,8 @@ Definition is_err_guard (s : rstmt) : bool :=
   end.
 Definition is_transport (s : rstmt) : bool :=
   match s with
-  | SReadI32 _ _ | SReadBuf _ _ | SDial _ _ | SCallWrite _ _ _ _ | SCallRead _ _ _ | SConnWrite _ _ => true
+  | SReadI32 _ _ | SReadBuf _ _ | SDial _ _ | SCallWrite _ _ _ _ | SCallRead _ _ _ | SConnWrite _ _
+  | SListen _ _ | SAcceptConn _ _ => true
   | _ => false
   end.
 Definition follows_ok (s : rstmt) (t : list rstmt) : bool :=
@@ -382,5 +386,77 @@ Fixpoint guarded (l : list rstmt) : bool :=
 Lemma transport_errors_checked :
   forallb (fun f => guarded (f_body f))
     [rcon_ReadPacket; rcon_WritePacket; rcon_Cmd; rcon_Resp; rcon_AcceptLogin; rcon_AcceptCmd; rcon_RespCmd;
-     rcon_DialRCON] = true.
+     rcon_DialRCON; rcon_ListenRCON; rcon_Accept] = true.
 Proof. reflexivity. Qed.
+
+(* ------------------------------------------------------------------ ListenRCON / Accept
+   Functions that only acquire a fresh operating-system object (a listener, an accepted connection: a HANDLE
+   h, distinct for every call) and return a new record around it.  exec_ctor runs their translated bodies:
+   the acquisition binds its variable to the handle and err to nil; the error check is not taken; the
+   returned &T{f: x, ...} becomes the record's fields: a field the literal sets is the handle its variable
+   holds, every other field of the struct (from the translated field list) has the zero value of its type. *)
+Inductive fval := FHandle (h : nat) | FInt (z : Z).
+Definition record := list (string * fval).
+Fixpoint hlookup (x : string) (e : list (string * nat)) : option nat :=
+  match e with [] => None | (y, h) :: t => if String.eqb x y then Some h else hlookup x t end.
+Fixpoint slookup (x : string) (e : list (string * string)) : option string :=
+  match e with [] => None | (y, v) :: t => if String.eqb x y then Some v else slookup x t end.
+Definition struct_fields (ty : string) : option (list (string * string)) :=
+  if String.eqb ty "RCONConn" then Some rcon_conn_fields
+  else if String.eqb ty "RCONListener" then Some rcon_listener_fields
+  else None.
+(* one field of the new record *)
+Definition build_field (lit : list (string * string)) (e : list (string * nat)) (f : string * string)
+    : option (string * fval) :=
+  let '(name, ty) := f in
+  match slookup name lit with
+  | Some x => match hlookup x e with Some h => Some (name, FHandle h) | None => None end
+  | None => if String.eqb ty "int32" then Some (name, FInt 0) else None   (* a nil net.Conn is not a connection *)
+  end.
+Fixpoint build_fields (lit : list (string * string)) (e : list (string * nat)) (fs : list (string * string))
+    : option record :=
+  match fs with
+  | [] => Some []
+  | f :: t => match build_field lit e f, build_fields lit e t with
+              | Some v, Some r => Some (v :: r)
+              | _, _ => None
+              end
+  end.
+(* every field the literal names must exist in the struct *)
+Definition lit_known (lit fs : list (string * string)) : bool :=
+  forallb (fun p => match slookup (fst p) fs with Some _ => true | None => false end) lit.
+Fixpoint exec_ctor (cn : string) (h : nat) (e : list (string * nat)) (acquired : bool) (ps : list rstmt)
+    : option (string * record) :=
+  match ps with
+  | SListen x _ :: t => if acquired then None else exec_ctor cn h ((x, h) :: e) true t
+  | SAcceptConn x o :: t =>
+      if acquired || negb (String.eqb o cn) then None else exec_ctor cn h ((x, h) :: e) true t
+  | SIf (XNilCmp CNe (XVar v)) _ [] :: t =>
+      (* err is nil after a successful acquisition: the branch is not taken *)
+      if acquired && String.eqb v "err" then exec_ctor cn h e acquired t else None
+  | [SReturn [XNew ty lit; XNil]] =>
+      match struct_fields ty with
+      | Some fs => if acquired && lit_known lit fs
+                   then match build_fields lit e fs with Some r => Some (ty, r) | None => None end
+                   else None
+      | None => None
+      end
+  | _ => None
+  end.
+Definition sem_ctor (f : rfunc) (h : nat) : option (string * record) := exec_ctor (f_conn f) h [] false (f_body f).
+
+(* Accept: an RCONConn around exactly the accepted net.Conn, with ReqID 0; ListenRCON: an RCONListener around
+   exactly the net.Listener.  For every handle. *)
+Lemma sem_Accept_is_model h :
+  sem_ctor rcon_Accept h = Some ("RCONConn", [("Conn", FHandle h); ("ReqID", FInt 0)]).
+Proof. reflexivity. Qed.
+Lemma sem_ListenRCON_is_model h :
+  sem_ctor rcon_ListenRCON h = Some ("RCONListener", [("Listener", FHandle h)]).
+Proof. reflexivity. Qed.
+(* the accepted net.Conn's handle and the ReqID of a record Accept returned *)
+Definition conn_of_record (r : string * record) : option (nat * Z) :=
+  match r with
+  | (ty, [(c, FHandle h); (q, FInt z)]) =>
+      if String.eqb ty "RCONConn" && String.eqb c "Conn" && String.eqb q "ReqID" then Some (h, z) else None
+  | _ => None
+  end.
